@@ -325,7 +325,7 @@ pub fn main(args: &[String]) {
 
     // ---- G2: structured random -------------------------------------------------------------------
     let pools = pools();
-    let n2 = if thorough { 300000 } else { 9000 };
+    let n2 = if thorough { 110000 } else { 9000 };
     for _ in 0..n2 {
         let pool = &pools[o.rng.below(pools.len())];
         let maxlen = if thorough { if o.rng.chance(1, 4) { 40 } else { 14 } } else { 12 };
@@ -346,7 +346,7 @@ pub fn main(args: &[String]) {
     }
 
     // ---- G3: deep nesting and many pending brackets ----------------------------------------------
-    let n3 = if thorough { 3000 } else { 96 };
+    let n3 = if thorough { 1200 } else { 96 };
     for k in 0..n3 {
         let mut items = Vec::new();
         let inits = ["LRE", "RLE", "LRO", "RLO", "LRI", "RLI", "FSI"];
@@ -506,7 +506,7 @@ pub fn main(args: &[String]) {
         }
         seqs = nxt;
     }
-    let n4 = if thorough { 40000 } else { 1500 };
+    let n4 = if thorough { 15000 } else { 1500 };
     for _ in 0..n4 {
         let len = 2 + o.rng.below(9);
         let mut items = Vec::new();
@@ -527,7 +527,7 @@ pub fn main(args: &[String]) {
     }
 
     // ---- G5: adversarial data sources ------------------------------------------------------------
-    let n5 = if thorough { 60000 } else { 2500 };
+    let n5 = if thorough { 25000 } else { 2500 };
     let plain_classes = ["L", "R", "AL", "EN", "ES", "ET", "AN", "CS", "NSM", "BN", "B", "S", "WS", "ON", "ON", "ON", "L", "R"];
     let alphabet: Vec<u32> = vec![0x61, 0x62, 0x31, 0x2B, 0x24, 0x2C, 0x21, 0x28, 0x29, 0x5B, 0x5D, 0x20, 0x9, 0xA, 0x1,
         0xAA, 0x5D0, 0x627, 0x661, 0x300, 0xAD, 0x85, 0xA0,
@@ -568,7 +568,7 @@ pub fn main(args: &[String]) {
     }
 
     // ---- C13: isolate pairs ------------------------------------------------------------------------
-    let n13 = if thorough { 40000 } else { 1500 };
+    let n13 = if thorough { 15000 } else { 1500 };
     let nb_syms: Vec<usize> = (0..nsym).filter(|&s| REPS[s].0 != "B").collect();
     for _ in 0..n13 {
         let gen_any = |o: &mut Out, n: usize, allow_b: bool| -> Vec<Item> {
